@@ -60,6 +60,12 @@ class C31(Prop):
             if mode in ("cancel", "both", "rel_cancel"):
                 # the resumed run may be cancelled in turn (this many seconds after the resume), serialized and resumed once more
                 spec["cancel2"] = draw(st.sampled_from([None, None, None, 0.25, 0.5, 1, 2, 3.5]))
+                # the workflow instance the run is resumed on has a run timeout of its own (off the grid of every other instant); the
+                # harness then holds its finishing event back, so a resumed run that does not end by itself must end by that timeout
+                # (derived from values already drawn instead of a draw of its own, so that the stream of generated programs is the one
+                # the stored sensitivity results were obtained on)
+                k = (spec["rel"]["pick"] if "rel" in spec else int(round(2 * spec["ext"][-1][0]))) + len(spec["steps"])
+                spec["resume_timeout"] = [None, None, None, 0.75, 2.25][k % 5] if spec["cancel2"] is None else None
             return spec
 
         return case()
@@ -111,9 +117,11 @@ class C31(Prop):
             spec2 = dict(spec, timeout=None)
             settle = genwf.fin_time(spec)
 
+            T2 = spec.get("resume_timeout")
+
             async def resume_life(snapshot, info, cancel_after=None):
                 try:
-                    wf = genwf.build_workflow(spec2, runtime=genwf.make_runtime())
+                    wf = genwf.build_workflow(dict(spec2, timeout=T2) if (T2 and info is life2) else spec2, runtime=genwf.make_runtime())
                     ctx2 = m["Context"].from_dict(wf, snapshot)
                     handler = wf.run(ctx=ctx2)
                 except Exception as e:  # noqa: BLE001
@@ -128,6 +136,12 @@ class C31(Prop):
                         info["cancel2_at"] = VClock.t
                         await handler.cancel_run(timeout=1e9)
                 else:
+                    if T2 and info is life2:
+                        await asyncio.wait({handler._result_task}, timeout=T2 + 0.5)
+                        if handler._result_task.done():
+                            info["ended_at"] = VClock.t
+                        else:
+                            info["timeout_missed"] = True
                     await asyncio.wait({handler._result_task}, timeout=settle)
                     if not handler._result_task.done():
                         try:
@@ -202,8 +216,9 @@ class C31(Prop):
                         return True
             return False
 
-        timed = [(t, e) for t, e in rec.stream if type(e).__name__ == "WorkflowTimedOutEvent"]
         mark = life2.get("stream_mark", len(rec.stream))
+        timed = [(t, e) for t, e in rec.stream[:mark] if type(e).__name__ == "WorkflowTimedOutEvent"]  # the first life's own stream
+        timed2 = [(t, e) for t, e in rec.stream[mark:] if type(e).__name__ == "WorkflowTimedOutEvent"]  # the resumed run's
         cancelled_ev = [(t, e) for t, e in rec.stream[:mark] if type(e).__name__ == "WorkflowCancelledEvent"]
         cancelled_ev2 = [(t, e) for t, e in rec.stream[mark:] if type(e).__name__ == "WorkflowCancelledEvent"]
         # ------------------------------------------------------------ timeout clauses
@@ -282,6 +297,15 @@ class C31(Prop):
                             r.v("resumed_after_cancel_did_not_complete", outcome=o3["kind"], exc=repr(o3.get("exc"))[:100], second_cancel=True)
                         elif o3["kind"] == "result":
                             r.classes.append("resumed_twice_to_result")
+                elif spec.get("resume_timeout") and life2.get("timeout_missed"):
+                    r.v("resumed_run_not_timed_out", wf_timeout=spec["resume_timeout"], outcome_after_finishing_event=o2["kind"])
+                elif spec.get("resume_timeout") and o2["kind"] == "timeout":
+                    r.classes.append("resumed_run_ended_by_its_timeout")
+                    if len(timed2) != 1:
+                        r.v("timed_out_event_count", n=len(timed2), resumed_run=True)
+                    elif abs(timed2[0][0] - life2["t0"] - spec["resume_timeout"]) > 1e-4:
+                        # (the instant of the WorkflowTimedOutEvent, as for the first life: the task itself ends after the teardown)
+                        r.v("resumed_run_timed_out_at_wrong_instant", wf_timeout=spec["resume_timeout"], after=round(timed2[0][0] - life2["t0"], 4))
                 elif o2["kind"] != "result":
                     failing = self._may_fail(spec)
                     if not (o2["kind"] == "failed" and failing):
